@@ -83,7 +83,7 @@ class C02(HistoryProperty):
     NONTRIVIAL_MEASURE = "history_with_checked_repeat"
 
     def gen_case(self, rng, tier):
-        cfg = gen.swarm_cfg(rng, off=("alloptions", "shape_change", "dangling"))
+        cfg = gen.swarm_cfg(rng, off=("alloptions", "shape_change", "dangling"), on=("dsclass",))
         spec = gen.prune(gen.gen_spec(rng, cfg))
         for n in spec["nodes"]:
             if n["k"] == "dataset" and n.get("cache", "default") == "default":
